@@ -1776,3 +1776,55 @@ def m_boxed_data_source(ex, st, fr, path, args, m):
     if m.group(1) == "len":
         return I("usize", len(data.elems))
     return NotImplemented
+
+
+@model(r"^<(?:std::string::)?String as (?:std::string::)?ToString>::to_string$")
+def m_string_to_string(ex, st, fr, path, args, m):
+    v = vec_of(args[0])
+    return VecObj(list(v.elems), "u8", is_str=True)
+
+
+@model(r"^(?:std::slice|core::slice)::<impl \[(.*)\]>::(sort_by|sort_unstable_by)::<")
+def m_sort_by(ex, st, fr, path, args, m):
+    """insertion sort driven by the caller's comparison closure (stable, like slice::sort_by).  std's sorting algorithm
+    itself is trusted; only the comparator is executed."""
+    el, lo, hi = seq_of(args[0])
+    items = list(el[lo:hi])
+    out = []
+    for x in items:
+        pos = len(out)
+        for k in range(len(out)):
+            # strictly-less moves before; equal stays after (stability)
+            o = ex.call_closure(st, fr, args[1], [Ref(Cell(x)), Ref(Cell(out[k]))])
+            if o.variant == "Less":
+                pos = k
+                break
+        out.insert(pos, x)
+    el[lo:hi] = out
+    return UNIT
+
+
+@model(r"^(?:core::char::methods::<impl char>|char::methods::<impl char>|char)::(is_alphanumeric|is_lowercase|is_uppercase|is_alphabetic|is_numeric|is_ascii_digit|is_ascii_hexdigit|is_whitespace)$")
+def m_char_class(ex, st, fr, path, args, m):
+    c = args[0]
+    op = m.group(1)
+    if not ex.decide(st, binop("Lt", c, I("char", 128))):
+        raise Unsupported("char classification of non-ASCII characters (Unicode tables are not modelled)")
+    def rng(a, b):
+        return band(binop("Ge", c, I("char", ord(a))), binop("Le", c, I("char", ord(b))))
+    def bor2(*xs):
+        return bnot(band(*[bnot(x) for x in xs]))
+    lower, upper, digit = rng("a", "z"), rng("A", "Z"), rng("0", "9")
+    if op == "is_alphanumeric":
+        return bor2(lower, upper, digit)
+    if op == "is_alphabetic":
+        return bor2(lower, upper)
+    if op == "is_lowercase":
+        return lower
+    if op == "is_uppercase":
+        return upper
+    if op in ("is_numeric", "is_ascii_digit"):
+        return digit
+    if op == "is_ascii_hexdigit":
+        return bor2(digit, rng("a", "f"), rng("A", "F"))
+    return NotImplemented
